@@ -10,10 +10,10 @@ TRUST = ("Trusted: z3 5.1.0 verdicts; rulesym's re-implementation of the Python/
          "floats as exact reals over the stored doubles unless the (1+delta) model is stated; bounds as in evidence.")
 
 P = {
-    "C01": dict(level="other", tech="bounded SMT over symbolic columns (z3) + CrossHair symbolic execution of groupings.py; all N! row orders, N<=3/4",
-                text="For N<=3 (quick) / 4 (thorough) rows and all row permutations the real grouping, aggregation, pointer-sum and join code is executed symbolically (CrossHair on groupings.py, colsym/z3 on aggregation_numpy/shared) and proved order-equivariant; the dtype-from-first-row effect of numpy.vectorize is decided per rule by a typed-path z3 query. Bounded; pandas-level result assembly is outside.",
+    "C01": dict(level="other", tech="bounded SMT over symbolic columns (z3): the real grouping / aggregation / join source executed by rulesym+colsym for all N! row orders, N<=3/4 (CrossHair as second engine at N=3)",
+                text="For N<=3 (quick) / 4 (thorough) rows and all row permutations the real grouping, aggregation, pointer-sum and join code is executed symbolically (rulesym/colsym + z3 on groupings.py, aggregation_numpy, shared; CrossHair as a second engine at N=3) and proved order-equivariant; the dtype-from-first-row effect of numpy.vectorize is decided per rule by a typed-path z3 query. Bounded; pandas-level result assembly is outside.",
                 ref="DESIGN.md#c01"),
-    "C02": dict(level="other", tech="bounded SMT two-population harness (A alone vs A++B) on the real column code; CrossHair for groupings",
+    "C02": dict(level="other", tech="bounded SMT two-population harness (A alone vs A++B) on the real column code (rulesym/colsym + z3; CrossHair second engine)",
                 text="A (<=2 rows) alone vs A++B (B<=2 rows, disjoint ids): real grouping/aggregation/join code symbolically executed; results on A equal / induce the same partition, no derived id shared across populations; relabelling with injective sign-preserving maps. Bounded.",
                 ref="DESIGN.md#c02"),
     "C03": dict(level="other", tech="typed symbolic execution of every active rule (z3): dynamic return type per path vs numpy.vectorize otypes-from-first-row",
@@ -29,19 +29,19 @@ P = {
                 text="The real set_up_policy_environment is run under a recording date; z3 proves the recorded regions cover every calendar day of the window; per region the environment is compared with an independent resolver of the YAML dialect and the active function set with the registered validity intervals.",
                 ref="DESIGN.md#c07"),
     "C08": dict(level="other", tech="symbolic execution of every rule reachable from the default targets per date class; z3 reachability of error guards (missing key/index, NotImplementedError, division by zero)",
-                text="Per date class >= 2015 the real DAG is built, roots are compared with the documented inputs, and every reachable rule is executed symbolically with havoc'd parents; each error guard must be unsat under the valid-population predicate. sat guards are replayed through the real API.",
+                text="Per date class >= 2015 the real DAG is built, roots are compared with the documented inputs, and every reachable rule is executed symbolically with havoc'd parents; each error guard must be unsat under the valid-population predicate, first locally, then on the single-person cone, then on household templates (up to 2 adults + 10 children). sat guards are replayed through the real API.",
                 ref="DESIGN.md#c08"),
     "C09": dict(level="translation_validation", tech="translation validation: rulesym executes original and rewritten AST, z3 decides inequivalence; bounded grammar enumeration of programs",
-                text="For every internal function and every generated program of the documented restricted grammar (depth<=2/3) the real _make_vectorizable_ast output is executed symbolically on arrays of length 2 and compared position-wise with the original on scalars; z3 refutes any differing input unless the rewrite fails loudly. Models are replayed on the real make_vectorizable output.",
+                text="For every internal function (once per parameter variant inside its validity period) and every generated program of the documented restricted grammar (depth<=2/3) the real _make_vectorizable_ast output is executed symbolically on arrays of length 2 and compared position-wise with the original on scalars; z3 refutes any differing input unless the rewrite fails loudly. Models are replayed on the real make_vectorizable output.",
                 ref="DESIGN.md#c09"),
     "C10": dict(level="other", tech="symbolic execution of the real rounding wrapper vs raw-YAML spec (z3, integer grid reasoning)",
-                text="For every rule with a rounding key x date class the real wrapper from _add_rounding_to_functions is executed on a free real and z3 proves grid membership, direction, |error| < base and offset against the spec read independently from YAML; derived time-unit/aggregate nodes are proved not to round again.",
+                text="For every rule with a rounding key x date class the real wrapper from _add_rounding_to_functions is executed on a free real and z3 proves grid membership, direction, |error| < base and offset against the spec read independently from YAML (wrappers taken from per-rule calls and from one production-shaped call over all functions, both orders); derived time-unit/aggregate nodes are proved not to round again.",
                 ref="DESIGN.md#c10"),
     "C11": dict(level="other", tech="bounded SMT over symbolic columns: real aggregation/join source vs textbook definition, N<=3/4",
                 text="The real grouped_*, sum_by_p_id, join_numpy source is executed on symbolic columns (library calls modelled, models conformance-tested each run) and z3 proves equality with the mathematical definition for all ids/values at N<=3 (quick) / 4 (thorough); spec precedence and result types by node-definition equivalence on real loader graphs.",
                 ref="DESIGN.md#c11"),
-    "C12": dict(level="other", tech="CrossHair symbolic execution of the real groupings.py against pairwise unit obligations, N<=3/4",
-                text="CrossHair (z3) executes the real *_id_numpy functions on symbolic pointer structures (canonical labels) and must confirm over all paths the pairwise obligations of the unit definitions, nesting and id non-collision, for all row orders. Bounded N<=3 quick / 4 thorough.",
+    "C12": dict(level="other", tech="rulesym + z3 on the real *_id_numpy functions (guarded dictionaries/lists for the Python containers) against pairwise unit obligations, N<=3 quick / 4 thorough / 5 where affordable; per parameter variant; CrossHair second engine at N=3",
+                text="The real *_id_numpy functions are executed symbolically (rulesym: Python dict/list code through guarded containers; z3 decides) on symbolic pointer structures and must satisfy the pairwise obligations of the unit definitions, nesting and id non-collision for every row order, one obligation per order; encoder validated against the real function on random structures each run; every model replayed. Bounded N<=3 quick / 4 thorough (eg/sn/bg/wthh also 5). CrossHair confirms the non-fg conditions independently at N=3.",
                 ref="DESIGN.md#c12"),
     "C13": dict(level="other", tech="symbolic execution of the 12 converters (exact reals + (1+delta) FP model) and of the loader wiring of time-unit siblings (z3)",
                 text="z3 proves each real converter equals multiplication by the documented factor ratio, round trips within 5*2^-53 relative under the rounding-error model, and for every time-suffixed name that the real loader derives, sibling = source x factor and commutation with group sums (N<=3).",
@@ -56,7 +56,7 @@ P = {
                 text="The benefit-priority slice is evaluated symbolically from the real rule sources for N persons with symbolic group membership; z3 refutes any person with a forbidden benefit combination, split needs units across part-households, or Kinderzuschlag below need.",
                 ref="DESIGN.md#c17"),
     "C18": dict(level="other", tech="symbolic execution of the real piecewise_polynomial per interval path vs schedule rebuilt from raw YAML (z3 nonlinear real arithmetic)",
-                text="Per schedule x change date z3 refutes any real argument where the real evaluation differs from the mathematical schedule by more than eps; tax and soli shape claims (monotone, continuous via Lipschitz, convex, zero below allowance, cap) proved for all reals; thresholds +-1ulp evaluated concretely.",
+                text="Per schedule x change date z3 refutes any real argument where the real evaluation differs from the mathematical schedule by more than eps; tax and soli shape claims (monotone, continuous via Lipschitz, convex, zero below allowance, cap) proved for all reals; the rates_multiplier branch for a symbolic multiplier in [0,2]; thresholds +-1ulp evaluated concretely.",
                 ref="DESIGN.md#c18"),
     "C19": dict(level="other", tech="two-copy symbolic execution of the contribution sub-DAG in the wage (z3 linear real arithmetic), rounding wrapper included",
                 text="The real contribution rules from bruttolohn_m to the four employee (and employer) contribution nodes are composed symbolically per date class; z3 proves non-negativity, monotonicity in the wage, zero for marginal employment, constancy above the ceiling, agreement at the upper transition-zone boundary and employee+employer=total, modulo eps=1e-6.",
